@@ -14,6 +14,7 @@ from ..run import Outcome
 
 ID = "C19"
 BUDGET = {"quick": 10000, "thorough": 120000}
+FUZZ = {"thorough": 6000}  # coverage-guided stage: libFuzzer runs per worker (x16), see vk/fuzz.py
 RULE = (
     "Hypothesis: (lp) triples of untied profiles over a common set of 2-5 candidates (partial "
     "ballots, int or p/q weights with small denominators, rankings shared between the profiles "
